@@ -27,7 +27,7 @@ Class(m) ==
     [] m.k = "EVENT" -> IF IsWampURI(m.v) THEN "meta" ELSE "pubsub"
     [] m.k = "ERROR" -> IF m.a \in {T_SUBSCRIBE, T_UNSUBSCRIBE, T_PUBLISH} THEN "pubsub"
                         ELSE IF m.a \in {T_CALL, T_CANCEL} THEN "rpcreply" ELSE "rpcroute"
-    [] m.k = "RESULT" -> "rpcreply"
+    [] m.k = "RESULT" -> IF m.y = 1 THEN "metaapi" ELSE "rpcreply"
     [] m.k \in {"REGISTERED", "UNREGISTERED", "INVOCATION"} -> "rpcroute"
     [] m.k = "INTERRUPT" -> "rpcintr"
     [] OTHER -> "other"
@@ -69,11 +69,20 @@ LoggedFor(r, s) ==
 
 SpecFor(o, s) == IF s \in DOMAIN o THEN [i \in DOMAIN o[s] |-> Canon(o[s][i])] ELSE <<>>
 
+\* Sessions ending in the same step (multi-victim kills) end concurrently: what one
+\* victim still receives about the others depends on the scheduler, so for them
+\* only the session-control messages (GOODBYE, CLOSED) of that step are compared.
+Leavers == {s \in DOMAIN sess : sess[s].st = "joined" /\ sess'[s].st = "gone"}
+ProjFor(s, q) ==
+  IF Cardinality(Leavers) > 1 /\ s \in Leavers
+  THEN SelectSeq(q, LAMBDA m : Class(m) = "sess" /\ "sess" \in Classes)
+  ELSE Proj(q)
+
 Matches(o, r) ==
   LET names == DOMAIN o \cup {r.out[i].s : i \in DOMAIN r.out} IN
   \A s \in names :
-     LET a == Proj(SpecFor(o, s))
-         b == Proj(LoggedFor(r, s))
+     LET a == ProjFor(s, SpecFor(o, s))
+         b == ProjFor(s, LoggedFor(r, s))
      IN /\ BagEq(a, b)
         /\ NoInversion(b)
 
@@ -131,6 +140,11 @@ Apply(i, b) ==
     [] i.op = "inverror" -> Live(i.s) /\ Commit(InvErrorFx(Cur, i.s, i.id, i.o.err, i.tag))
     [] i.op = "leave"    -> Live(i.s) /\ Commit(LeaveFx(Cur, i.s, i.how, ""))
     [] i.op = "advance"  -> Commit(AdvanceFx(Cur, i.ms))
+    [] i.op = "metacall" ->
+         /\ Live(i.s)
+         /\ \E pick \in (IF b.reg # 0 THEN {b.reg} ELSE {regs[k].id : k \in BestRegs(Cur, i.uri2)} \cup {0}) :
+              /\ MetaPre(Cur, i, pick)
+              /\ Commit(MetaCallFx(Cur, i.s, i.req, i, b.hp, pick))
 
 \* --------------------------------------------------------------------------
 IsEvent(e) == l <= Len(TraceLog) /\ TraceLog[l].ev = e /\ l' = l + 1
